@@ -97,15 +97,16 @@ def run_slice(repo, contig_lists, force_route=None):
                     ns.update({'get_contigs_with_reads': stub, 'input_bam_path': 'INPUT.bam'})
                     exec(code, ns)
                     job_gen = ns['job_gen']
-                tasks = list(generate_tasks(input_bam_path='INPUT.bam', temp_folder='TMP', job_gen=job_gen,
-                                            iteration_args={}, additional_args={}))
+                # the job list handed to generate_tasks: a list of jobs, each a list of (contig, start, end, fetch_start,
+                # fetch_end); read off directly (the task tuples generate_tasks builds from it are internal)
                 jobs = []
-                for (p, t, to), arglist in tasks:
+                for job_ in job_gen:
                     job = []
-                    for a in arglist:
-                        if any(a[k] is not None for k in ('start', 'end', 'fetch_start', 'fetch_end')):
+                    for a in job_:
+                        a = tuple(a)
+                        if any(x is not None for x in a[1:5]):
                             raise RuntimeError('contig-per-process task with a region: %r' % (a,))
-                        job.append(a['contig'])
+                        job.append(a[0])
                     jobs.append(job)
                 if any(p != 'INPUT.bam' for p, _ in calls):
                     raise RuntimeError('job block reads contigs from another file: %r' % (calls,))
